@@ -83,6 +83,7 @@ var c13Unnamed = []struct{ Type, Name string }{
 	{"[]Loc", "locs"}, {"[]int", "ints"}, {"[]string", "strings"}, {"[3]Loc", "locs"}, {"[]*Loc", "locs"},
 	{"map[string]int", "stringToInt"}, {"map[string]Loc", "stringToLoc"}, {"map[Loc]string", "locToString"},
 	{"chan int", "intCh"}, {"chan Loc", "locCh"}, {"<-chan string", "stringCh"},
+	{"*string", "s"}, {"*int", "n"}, {"[]*int", "ns"}, {"**Loc", "loc"}, {"map[string]*int", "stringToN"}, {"[]*string", "ss"},
 	{"func()", "fn"}, {"func(int) string", "fn"}, {"@{time}.Duration", "duration"}, {"@{~/a/foo}.I", "i"},
 }
 
@@ -534,6 +535,9 @@ func runC14E1(rep *Report, tier string) {
 	for i, c := range cases {
 		reqs[i] = c.req(fx)
 		reqs[i].Repeat = 2
+		if c.Scope == "S-det" {
+			reqs[i].Repeat = 40 // rare schedules / orders: many fresh generators in one process
+		}
 	}
 	first := make([]GenResp, len(cases))
 	pool.Run(reqs, func(i int, resp GenResp) { first[i] = resp })
@@ -553,7 +557,7 @@ func runC14E1(rep *Report, tier string) {
 		if a.Died != "" || b.Died != "" {
 			continue // C19's
 		}
-		evals += 4
+		evals += 2 + len(a.Repeats)
 		distinct[hashBytes(a.Out)] = true
 		outs := [][]byte{a.Out}
 		if a.Err != "" {
@@ -594,7 +598,15 @@ func det14Pkgs() []*SrcPkg {
 	for i, d := range decls {
 		p.add(IfaceCase{Name: fmt.Sprintf("D%d", i), Tags: []string{"det:" + fmt.Sprint(i)}, Scope: "S-det"}, d)
 	}
-	return p.pkgs
+	// one import path under a different alias in each of five source files
+	sp := &SrcPkg{Dir: "s/detalias_0", Name: "src"}
+	for i := 0; i < 5; i++ {
+		sp.Files = append(sp.Files, SrcFile{Name: fmt.Sprintf("f%d.go", i), Aliases: map[string]string{"~/a/foo": fmt.Sprintf("al%d", i)},
+			Decls: fmt.Sprintf("type U%d interface{ M%d(@{~/a/foo}.T) @{~/a/foo}.T }\n", i, i)})
+	}
+	sp.Files = append(sp.Files, SrcFile{Name: "i.go", Decls: "type DA interface{ U0; U1; U2; U3; U4 }\n"})
+	sp.Ifaces = []IfaceCase{{Name: "DA", Src: "five files import example.com/m/a/foo as al0..al4; DA embeds one interface of each", Tags: []string{"det:alias"}, Scope: "S-det"}}
+	return append(p.pkgs, sp)
 }
 
 // ---------- C19 (E1 leg): every case of every scope terminates with output or a diagnostic ----------
